@@ -8,12 +8,35 @@ From OvldV Require Import Model.Order Model.Ty Gen.Leaf.
 
 Definition fn_like (t : ty) : bool := match t with Fn _ _ _ | TFn _ _ _ => true | _ => false end.
 
+Lemma count2_ext (f g : bool -> bool -> bool) l1 l2 : (forall x y, f x y = g x y) -> count2 f l1 l2 = count2 g l1 l2.
+Proof. intros H. revert l2. induction l1 as [|x xs IH]; intros [|y ys]; simpl; try reflexivity. now rewrite H, IH. Qed.
+
+(* however the two wildcard tests and the final combination are spelt: the tests are brought to the model's spelling by
+   extensionality over the four boolean cases, the combination is decided by whether each count is zero *)
+Ltac canon_counts :=
+  repeat match goal with
+         | |- context [count2 ?f ?l1 ?l2] =>
+             lazymatch f with
+             | (fun x y => x && negb y) => fail
+             | (fun x y => y && negb x) => fail
+             | _ => first [ rewrite (count2_ext f (fun x y => x && negb y) l1 l2) by (intros [] []; reflexivity)
+                          | rewrite (count2_ext f (fun x y => y && negb x) l1 l2) by (intros [] []; reflexivity) ]
+             end
+         end.
+
+Ltac split_count :=
+  match goal with
+  | |- context [count2 ?f ?l1 ?l2] => generalize (count2 f l1 l2); intros [|?]
+  end.
+
 Lemma dep_lt_agree : forall a b, fn_like a = true -> dep_lt a b = dep_lt_src (any_flags a) (any_flags b).
 Proof.
   intros a b H. destruct a; try discriminate H; unfold dep_lt, dep_lt_src;
     first [reflexivity
-          | destruct (Nat.eqb (length (any_flags _)) (length (any_flags b))); cbn [negb];
-            first [reflexivity | now rewrite ?negb_involutive]].
+          | cbv zeta; canon_counts;
+            match goal with |- context [Nat.eqb (length ?l1) (length ?l2)] => destruct (Nat.eqb (length l1) (length l2)) end;
+            cbn [negb]; try reflexivity;
+            repeat split_count; reflexivity].
 Qed.
 
 (* slot-wise reading *)
